@@ -135,7 +135,9 @@ def run_unit(name, rlimit=None, extra_args=(), seed=None, keep=True):
         # the canary is counted by verus as one error; remove it from the totals
         res['errors'] = max(0, res['errors'] - (1 if canary_failed else 0))
         res['functions'] = [f for f in res['functions'] if not f['function'].endswith('::verif_canary')]
-    if u.has_canary and not canary_failed and not vr.get('encountered-vir-error') and not any(f['class'] == 'other' for f in res['failures']):
+    if 'panicked at' in p.stderr or 'internal compiler error' in p.stderr:
+        res['status'] = 'tool-error'; res['reason'] = 'verus crashed: ' + p.stderr[:1500]
+    elif u.has_canary and not canary_failed and not vr.get('encountered-vir-error') and not any(f['class'] == 'other' for f in res['failures']):
         res['status'] = 'vacuous'; res['reason'] = 'canary `ensures false` was PROVED: environment inconsistent'
     elif vr.get('encountered-vir-error') or (p.returncode != 0 and not diags):
         res['status'] = 'tool-error'; res['reason'] = p.stderr[-3000:]
